@@ -37,6 +37,13 @@ def compare(ctx, rule, inst, code: Val, spec: Val, fi, key, strict_idiom=True):
     if strict_idiom and not (set(hc) <= set(hs)):
         return ctx.unknown(rule, inst, f"construction not recognised: it uses library calls outside the documented construction: {sorted(set(hc) - set(hs))} (documented {sorted(set(hs))})\ncode: {show(arr_term(code), 300)}",
                            fi.loc(), fi.qualname, key)
+    from .common import foreign_heads
+    fh = foreign_heads(code, spec)
+    if any(isinstance(t, Gam) for t in walk_vals(code)) and not any(isinstance(t, Gam) for t in walk_vals(spec)):
+        fh = fh + ['conditional on a quantity the rule does not model']
+    if strict_idiom and fh:
+        return ctx.unknown(rule, inst, f"construction not recognised: the value is built with constructs the documented construction does not use and the canonicaliser "
+                                       f"does not resolve: {fh}\ncode: {show(arr_term(code), 300)}", fi.loc(), fi.qualname, key)
     return ctx.fail(rule, inst, f"code: {show(arr_term(code), 400)}\nspec: {show(arr_term(spec), 400)}", fi.loc(), fi.qualname, key)
 
 
@@ -324,8 +331,14 @@ def check_rules(ctx):
     r = need_num(ctx, 'C17.5', 'sum_over_indices', r, sfi)
     lo, hi = ind.at(sym.idx()).r, ind.at(sym.idx() + C(1)).r
     want = sym.mk_sum(a.at(sym.idx() + lo).r, hi - lo)
-    ctx.check(r.length is not None and r.r == want and r.length == J, 'C17.5', 'sum_over_indices: element j = sum of a[ind[j]:ind[j+1]]', show(r, 200), sfi.loc(),
-              sfi.qualname, 'range-sums')
+    from .common import foreign_heads
+    fh = foreign_heads(r, Num(want, J))
+    if not (r.length is not None and r.r == want and r.length == J) and fh:
+        ctx.unknown('C17.5', 'sum_over_indices: element j = sum of a[ind[j]:ind[j+1]]', f"construction not recognised (uses {fh}): {show(r, 200)}", sfi.loc(), sfi.qualname,
+                    'range-sums')
+    else:
+        ctx.check(r.length is not None and r.r == want and r.length == J, 'C17.5', 'sum_over_indices: element j = sum of a[ind[j]:ind[j+1]]', show(r, 200), sfi.loc(),
+                  sfi.qualname, 'range-sums')
 
 
 def check_average(ctx):
